@@ -420,6 +420,7 @@ pub open spec fn ascii_bytes(s: Seq<u8>) -> bool { forall|i: int| 0 <= i < s.len
                     invariant
                         self.prior_handed_off(),
                         self.closing() == old(self).closing(), self.sink_last() == old(self).sink_last(),
+                        self.remote_addr == old(self).remote_addr,
                         // O-NOSKIP (C10, C16): every non-empty line of the head has become exactly one header (or ended the
                         // request with an error): no line is skipped, none is entered twice
                         headers@.len() == nlines,   // [C10,C16]
@@ -455,6 +456,8 @@ pub open spec fn ascii_bytes(s: Seq<u8>) -> bool { forall|i: int| 0 <= i < s.len
                 && method_of($r->Ok_0.meth(), head_of(rl, ' '))
                 && $r->Ok_0.target() == head_of(tail_of(rl, ' ')->Some_0, ' ')
                 && version_of($r->Ok_0.version(), head_of(tail_of(tail_of(rl, ' ')->Some_0, ' ')->Some_0, ' ')));
+            // ... and the peer address that was stored when the connection was accepted
+            assert($r is Ok ==> self.remote_addr is Ok && $r->Ok_0.peer() == self.remote_addr->Ok_0);
             assert($r is Ok ==> $r->Ok_0.hdrs().len() == hlines.len()
                 && forall|i: int| 0 <= i < hlines.len() ==> hdr_of_line(#[trigger] $r->Ok_0.hdrs()[i], hlines[i]));
         }
